@@ -207,6 +207,13 @@ def run_trace_leg(check, scratch, name, gen, want, nshards=None, classify=None, 
             check.sample(s)
         for tid, clause, case in r['fails']:
             key = classify(tid, clause, case) if classify else clause
+            if clause.startswith('DRIFT_'):
+                # the reference model (a transcription of the present algorithm) predicted something else; the contract clauses
+                # decide about violations, this only tells that leg (M) no longer speaks for the code
+                ndrift += 1
+                if ndrift <= 3:
+                    check.note('drift (reference model differs from code): %s on %s' % (clause, tid))
+                continue
             if clause.startswith('HARNESS_'):
                 check.error('harness self-check failed: %s on %s' % (clause, tid))
                 continue
